@@ -48,6 +48,8 @@ class Contract(object):
         self.raises = dict(getattr(holder, "raises", {}))
         self.loops = dict(getattr(holder, "loops", {}))
         self.ghost = _static(holder, "ghost")
+        self.globals = _static(holder, "globals")
+        self.assume_native = _static(holder, "assume_native")
         self.lift = _static(holder, "lift")
         self.budget = dict(getattr(holder, "budget", {}))
         self.requires = []
@@ -173,6 +175,22 @@ def re_equiv(a, b):
     pb = b.pattern if hasattr(b, "pattern") else b
     sample = ["", " ", "a", "\t\n", " a ", "\x0c\r ", "\u00a0", "ab  c"]
     return all((re.fullmatch(pa, x) is None) == (re.fullmatch(pb, x) is None) for x in sample)
+
+
+def is_key_prefix(s):
+    from html.entities import html5
+    return any(k.startswith(s) for k in html5)
+
+
+def some_key_is_prefix_of(s):
+    from html.entities import html5
+    return any(s.startswith(k) for k in html5)
+
+
+def longest_key_prefix(s):
+    from html.entities import html5
+    c = [k for k in html5 if s.startswith(k)]
+    return max(c, key=len) if c else None
 
 
 def int_value(s, base=10):
